@@ -3,7 +3,8 @@
 import json,sys
 pid=sys.argv[1]
 round2 = len(sys.argv)>2 and sys.argv[2]=='round2'
-round5 = len(sys.argv)>2 and sys.argv[2]=='round5'
+round6 = len(sys.argv)>2 and sys.argv[2]=='round6'
+round5 = (len(sys.argv)>2 and sys.argv[2]=='round5') or round6
 round4 = (len(sys.argv)>2 and sys.argv[2]=='round4') or round5
 round3 = (len(sys.argv)>2 and sys.argv[2]=='round3') or round4
 for l in open('/verif/properties.jsonl'):
@@ -50,8 +51,8 @@ if round3:
     if round4:
         hint=hint.replace('This is a third round.','This is a fourth round.')+'IMPORTANT: never use `git stash` (the stash is shared between all worktrees of this repository and other engineers are working in sibling worktrees at the same time): to test without your change, save it with `git diff > /tmp/seed/%s_work.diff`, `git checkout -- <file>`, test, then `git apply /tmp/seed/%s_work.diff`. '%(pid,pid)
         if round5:
-            hint=hint.replace('This is a fourth round.','This is a fifth round.')
-        text=text.replace('{ROUND2}',hint).replace('{LA}','I' if round5 else 'G').replace('{LB}','J' if round5 else 'H').replace('(git stash or git checkout of the source file)','(git checkout of the source file after saving your diff, see above)')
+            hint=hint.replace('This is a fourth round.','This is a sixth round.' if round6 else 'This is a fifth round.')
+        text=text.replace('{ROUND2}',hint).replace('{LA}','K' if round6 else ('I' if round5 else 'G')).replace('{LB}','L' if round6 else ('J' if round5 else 'H')).replace('(git stash or git checkout of the source file)','(git checkout of the source file after saving your diff, see above)')
     else:
         text=text.replace('{ROUND2}',hint).replace('{LA}','E').replace('{LB}','F')
 elif round2:
